@@ -24,6 +24,14 @@ for p in "$@"; do [ "$p" = C18 ] && RACE=1; done
 go build -modfile="$TMP/go.mod" -tags verif -o "$TMP/vcheck" ./cmd/vcheck || { echo "HARNESS-BUILD-FAILED"; exit 2; }
 for p in "$@"; do [ "$p" = C19 ] && { go build -modfile="$TMP/go.mod" -o "$TMP/shovel" github.com/indexsupply/shovel/cmd/shovel || exit 2; export VERIF_SHOVEL_BIN="$TMP/shovel"; }; done
 [ -n "$RACE" ] && { go build -race -modfile="$TMP/go.mod" -tags verif -o "$TMP/vcheck-race" ./cmd/vcheck || exit 2; }
+if [ -n "$RACE" ]; then
+  # C18's first-use children: plain build with the JSON library's decoder publication stretched (see run.sh)
+  JD="$(go list -modfile="$TMP/go.mod" -m -f '{{.Dir}}' github.com/goccy/go-json 2>/dev/null)"
+  if [ -n "$JD" ] && [ -f "$JD/internal/decoder/compile_norace.go" ]; then
+    printf '{"Replace": {"%s": "%s"}}\n' "$JD/internal/decoder/compile_norace.go" "$ROOT/harness/overlay/compile_norace.go.txt" > "$TMP/overlay.json"
+    go build -modfile="$TMP/go.mod" -tags verif -overlay "$TMP/overlay.json" -o "$TMP/vcheck-firstuse" ./cmd/vcheck || exit 2
+  fi
+fi
 rc=0
 for p in "$@"; do
   W="$TMP/vcheck"; [ "$p" = C18 ] && W="$TMP/vcheck-race"
